@@ -2,6 +2,9 @@
 # run_seeded.sh <name> <property-id> [tier] [extra simctl args]: applies the seeded change to /repo, runs
 # the property's check, and restores /repo. Prints the check's tail. Never leaves /repo modified.
 set -u
+# /repo is shared with other check runs: serialise on a lock
+exec 9>/tmp/repo.lock
+flock 9
 N="$1"; ID="$2"; TIER="${3:-quick}"; shift; shift; shift || true
 P=/verif/seeded/$N/patch.diff
 if [ -n "$(git -C /repo status --porcelain)" ]; then echo "/repo not clean"; exit 2; fi
